@@ -16,7 +16,7 @@ use std::time::Duration;
 
 pub static PROP: Prop = Prop {
     id: "C16",
-    rule: "cases: a pool of 2-6 (program, context recipe) pairs that deliberately share the names v0..v3 (statement programs that assign, read and fail midway; expression trees; texts that differ in one literal or are identical with different contexts; flat texts around a dynamically re-registered infix operator vh_dyn) and a history of 6-30 steps over 1-4 persistent worker threads: exec(i) with a fresh context, parse-only(i), parse-once-exec-n-times(i) on equal fresh contexts, re-registration of vh_dyn with another precedence/associativity, parse(flat text) compared with the reference parser under the registration made last, and bursts in which all threads run steps concurrently behind a barrier. Oracle: the solo outcome of each pool entry (result and final context) from the reference evaluator (or, where that is unspecified, the first solo run) must be the outcome of every occurrence on every thread; parse results depend only on the text and the last registration; after parse-only steps no lock is held. 1 case in 64 also cross-checks the solo outcome in a fresh child process. Fixed part: depth sweeps (1..320 nested parens/brackets/calls/prefixes) evaluated, parsed only, and evaluated again on one thread must repeat exactly. Non-trivial: the history runs >= 2 different programs that share an assigned name with a repetition after a different program, or a parse on one thread after a re-registration on another; distinct by (pool shape, schedule shape).",
+    rule: "cases: a pool of 2-6 (program, context recipe) pairs that deliberately share the names v0..v3 (statement programs that assign, read and fail midway; expression trees; texts that differ in one literal or are identical with different contexts; flat texts around a dynamically re-registered infix operator vh_dyn; a third of the later entries evaluate an earlier entry from inside a context function reached by the bare name `nz`, i.e. nested evaluation) and a history of 6-30 steps over 1-4 persistent worker threads: exec(i) with a fresh context, parse-only(i), parse-once-exec-n-times(i) on equal fresh contexts, re-registration of vh_dyn with another precedence/associativity, parse(flat text) compared with the reference parser under the registration made last, and bursts in which all threads run steps concurrently behind a barrier. Oracle: the solo outcome of each pool entry (result and final context) from the reference evaluator (or, where that is unspecified, the first solo run) must be the outcome of every occurrence on every thread; parse results depend only on the text and the last registration; after parse-only steps no lock is held. 1 case in 64 also cross-checks the solo outcome in a fresh child process. Fixed part: held-initialisation scenarios (results must not depend on another thread's concurrent first use) and depth sweeps (1..320 nested parens/brackets/calls/prefixes) evaluated, parsed only, and evaluated again on one thread must repeat exactly. Non-trivial: the history runs >= 2 different programs that share an assigned name with a repetition after a different program, or a parse on one thread after a re-registration on another; distinct by (pool shape, schedule shape).",
     assumptions: &[
         "the harness's own registrations (vh_*) are part of `the registrations made so far` and are modelled",
         "concurrent bursts use free-running threads: interleavings are sampled, not enumerated",
@@ -41,7 +41,9 @@ fn budget(t: Tier) -> Budget {
 
 #[derive(Clone)]
 enum Entry {
-    Prog { text: String, sc: SemCtx, expect: Option<(String, String)> },
+    /// `nested`: while this program runs, a context function of it (bare name `nz`) evaluates
+    /// that earlier pool entry with its own context
+    Prog { text: String, sc: SemCtx, expect: Option<(String, String)>, nested: Option<usize> },
     Flat { text: String },
 }
 
@@ -63,6 +65,7 @@ enum Rep {
     Sexp(String),
     Done,
     Panic(String),
+    Nested(String),
 }
 
 fn ctx_string(read: &BTreeMap<String, Option<V>>) -> String {
@@ -101,6 +104,8 @@ fn result_string(r: &crate::eng::Guarded<Value>) -> String {
     }
 }
 
+static NESTED_ERRORS: std::sync::Mutex<Vec<String>> = std::sync::Mutex::new(Vec::new());
+
 fn exec_once(text: &str, sc: &SemCtx) -> (String, String) {
     handlers::reset();
     let ctx = handlers::context_of(&sc.bindings);
@@ -110,11 +115,50 @@ fn exec_once(text: &str, sc: &SemCtx) -> (String, String) {
     (result_string(&r), ctx_string(&read))
 }
 
-fn run_cmd(cmd: &Cmd, pool: &[Entry]) -> Rep {
+/// runs pool entry `i`; a nested entry first evaluates another entry from inside a context
+/// function reached by the bare name `nz`
+fn exec_entry(pool: &Arc<Vec<Entry>>, i: usize) -> (String, String) {
+    let (text, sc, nested) = match &pool[i] {
+        Entry::Prog { text, sc, nested, .. } => (text.clone(), sc.clone(), *nested),
+        Entry::Flat { .. } => return (String::new(), String::new()),
+    };
+    handlers::reset();
+    let mut ctx = handlers::context_of(&sc.bindings);
+    let mut text = text;
+    if let Some(j) = nested {
+        let p2 = pool.clone();
+        ctx.set_func(
+            "nz",
+            Arc::new(move |_| {
+                let got = exec_entry(&p2, j);
+                if let Entry::Prog { expect: Some(want), text, .. } = &p2[j] {
+                    if &got != want {
+                        NESTED_ERRORS.lock().unwrap().push(format!(
+                            "program {:?} evaluated from inside a context function of another evaluation gave {} | {} instead of its solo outcome {} | {}",
+                            text, got.0, got.1, want.0, want.1
+                        ));
+                    }
+                }
+                Ok(Value::None)
+            }),
+        );
+        text = format!("nz ; {}", text);
+    }
+    let handle = handlers::share(&ctx);
+    let r = guard(|| execute(&text, ctx).map_err(|e| e.to_string()));
+    let read = guard(|| handlers::read_back(&handle, &all_names())).unwrap_or_default();
+    (result_string(&r), ctx_string(&read))
+}
+
+fn run_cmd(cmd: &Cmd, pool: &Arc<Vec<Entry>>) -> Rep {
     let r = guard(|| match cmd {
         Cmd::Exec(i) => match &pool[*i] {
-            Entry::Prog { text, sc, .. } => {
-                let (a, b) = exec_once(text, sc);
+            Entry::Prog { .. } => {
+                let (a, b) = exec_entry(pool, *i);
+                let errs: Vec<String> = std::mem::take(&mut *NESTED_ERRORS.lock().unwrap());
+                if let Some(e) = errs.into_iter().next() {
+                    return Rep::Nested(e);
+                }
                 Rep::Outcome(a, b)
             }
             Entry::Flat { .. } => Rep::Done,
@@ -226,6 +270,9 @@ fn check_rep(cmd: &Cmd, rep: &Rep, pool: &[Entry], dyn_state: (i32, bool), threa
     if let Rep::Panic(p) = rep {
         return Err(Failure::new(format!("panic:{}", panic_file(p)), format!("{} panicked: {}\n    history: {}", at, p, trace), case()));
     }
+    if let Rep::Nested(e) = rep {
+        return Err(Failure::new("nested-evaluation-differs", format!("{}: {}\n    history: {}", at, e, trace), case()));
+    }
     match (cmd, rep) {
         (Cmd::Exec(i), Rep::Outcome(r, c)) => {
             if let Entry::Prog { text, expect: Some((er, ec)), .. } = &pool[*i] {
@@ -316,15 +363,15 @@ fn case(src: &mut Src, st: &mut Stats, env: &Env) -> CaseResult {
         match src.weighted(&[6, 2, 2]) {
             1 if j > 0 => {
                 // same text as an earlier program entry, other context (or same)
-                if let Some(Entry::Prog { text, .. }) = pool.iter().find(|e| matches!(e, Entry::Prog { .. })).cloned() {
+                if let Some(Entry::Prog { text, .. }) = pool.iter().find(|e| matches!(e, Entry::Prog { nested: None, .. })).cloned() {
                     let (_, sc2) = gen_entry(src, &cfg);
                     let tree = trees.iter().flatten().next().cloned();
-                    pool.push(Entry::Prog { text, sc: sc2, expect: None });
+                    pool.push(Entry::Prog { text, sc: sc2, expect: None, nested: None });
                     trees.push(tree);
                     continue;
                 }
                 let (t, sc) = gen_entry(src, &cfg);
-                pool.push(Entry::Prog { text: t.render_explicit(), sc, expect: None });
+                pool.push(Entry::Prog { text: t.render_explicit(), sc, expect: None, nested: None });
                 trees.push(Some(t));
             }
             2 => {
@@ -343,15 +390,27 @@ fn case(src: &mut Src, st: &mut Stats, env: &Env) -> CaseResult {
             }
             _ => {
                 let (t, sc) = gen_entry(src, &cfg);
-                pool.push(Entry::Prog { text: t.render_explicit(), sc, expect: None });
+                // a third of the later programs evaluate an earlier one while they run
+                let progs: Vec<usize> = pool.iter().enumerate().filter(|(_, e)| matches!(e, Entry::Prog { .. })).map(|(k, _)| k).collect();
+                let nested = if !progs.is_empty() && src.chance(1, 3) { Some(progs[src.pick(progs.len())]) } else { None };
+                pool.push(Entry::Prog { text: t.render_explicit(), sc, expect: None, nested });
                 trees.push(Some(t));
             }
         }
     }
     // solo outcomes
-    for (e, t) in pool.iter_mut().zip(&trees) {
-        if let Entry::Prog { text, sc, expect } = e {
-            let first = exec_once(text, sc);
+    for idx in 0..pool.len() {
+        let snapshot = Arc::new(pool[..=idx].to_vec());
+        let t = &trees[idx];
+        let e = &mut pool[idx];
+        if let Entry::Prog { text, sc, expect, nested } = e {
+            let first = exec_entry(&snapshot, idx);
+            if nested.is_some() {
+                st.hist("nested-evaluation");
+            }
+            if let Some(err) = std::mem::take(&mut *NESTED_ERRORS.lock().unwrap()).into_iter().next() {
+                return Err(Failure::new("nested-evaluation-differs", format!("solo run of {:?}: {}", text, err), json!({"text": text, "context": ctx_json(sc)})));
+            }
             let mut m = Model {
                 ctx: sc.bindings.clone(),
                 loggers: handlers::loggers(),
@@ -378,7 +437,7 @@ fn case(src: &mut Src, st: &mut Stats, env: &Env) -> CaseResult {
         }
     }
     if child_check {
-        if let Some(Entry::Prog { text, sc, expect: Some(exp) }) = pool.iter().find(|e| matches!(e, Entry::Prog { .. })) {
+        if let Some(Entry::Prog { text, sc, expect: Some(exp), .. }) = pool.iter().find(|e| matches!(e, Entry::Prog { nested: None, .. })) {
             let out = run_child(&env.exe, &["worker", "c16"], &json!({"text": text, "context": ctx_json(sc)}).to_string(), Duration::from_secs(20));
             st.add_extra("child_processes", 1);
             let line = out.stdout.trim().to_string();
@@ -526,6 +585,18 @@ pub fn worker() -> i32 {
 }
 
 fn fixed(env: &Env, st: &mut Stats) -> CaseResult {
+    // a result must not depend on another thread making its first, unrelated call at the same
+    // time: the initialising thread is parked between its stages while built-ins are overridden
+    // and used (fresh child processes, C13's scenario runner)
+    for stage in 1..=3u64 {
+        if env.mine(100 + stage) {
+            st.hist("concurrent-first-use");
+            crate::props::c13::run_held("parse:1+2", stage, &["reg_fn:min", "exec:min(1,2)", "exec:1+2", "reg_infix:+", "exec:2 ++"], env, st).map_err(|mut f| {
+                f.detail = format!("(held-initialisation scenario, replay with ./check C13 --replay) {}", f.detail);
+                f
+            })?;
+        }
+    }
     // depth sweeps: evaluate, parse only, evaluate again on the same thread
     let constructs = ["paren", "bracket", "call", "prefix-minus", "cond-else", "left-chain"];
     for (ci, c) in constructs.iter().enumerate() {
